@@ -476,6 +476,35 @@ impl<MutexType: RawMutex, T> GenericMutex<MutexType, T> {
     }
 }
 
+#[cfg(all(futures_intrusive_verif, feature = "alloc"))]
+impl<MutexType: RawMutex, T> GenericMutex<MutexType, T> {
+    /// Read-only snapshot of the internal state for the verification harness
+    pub fn verif_snapshot(
+        &self,
+        is_live: crate::verif::IsLive<'_>,
+    ) -> crate::verif::Snapshot {
+        let state = self.state.lock();
+        let mut snap = crate::verif::Snapshot::default();
+        snap.scalars.push(("is_locked", state.is_locked as u64));
+        snap.scalars.push(("is_fair", state.is_fair as u64));
+        snap.queues.push(crate::verif::snap_list(
+            "waiters",
+            &state.waiters,
+            is_live,
+            &|e: &WaitQueueEntry| {
+                let code = match e.state {
+                    PollState::New => 0,
+                    PollState::Waiting => 1,
+                    PollState::Notified => 2,
+                    PollState::Done => 3,
+                };
+                (code, e.task.is_some(), 0)
+            },
+        ));
+        snap
+    }
+}
+
 // Export a non thread-safe version using NoopLock
 
 /// A [`GenericMutex`] which is not thread-safe.
